@@ -560,8 +560,6 @@ class RefEngine:
                 ctx.fail("wrong-knots", "insert", "after knot_insert the knot vector is %s, expected the sorted union %s"
                          % ([M.enc(x) for x in s1[0]], [M.enc(x) for x in sorted(L + [M.Fr(v) for v in vals])]))
                 ok = False
-            if (s1[2] is None) != (s0[2] is None):
-                ctx.fail("weights-presence", "insert", "weights appeared or disappeared during knot_insert")
             ok = self.fn_equal(ctx, s0, s1, "knot_insert(%s)" % [M.enc(M.Fr(v)) for v in vals], self.klass(s0)) and ok
         self.last[t] = {"kind": "insert", "nodes": list(vals), "pre_state": s0, "post_freeze": self.freeze(curve)}
         return "ok"
